@@ -359,11 +359,11 @@ end Recovery
 section TimeoutMw
 open Rivaas.Timeout
 
-theorem lemma_t_run_cons (waitH : Bool) (t : Tok) (ts : List Tok) (s : St) :
+theorem lemma_t_run_cons (waitH : Hooks) (t : Tok) (ts : List Tok) (s : St) :
     run waitH (t :: ts) s = run waitH ts (step waitH s t) := rfl
 
 /-- lift a step invariant to every schedule -/
-theorem lemma_t_run_induct (waitH : Bool) (P : St → Prop) (hstep : ∀ s t, P s → P (step waitH s t))
+theorem lemma_t_run_induct (waitH : Hooks) (P : St → Prop) (hstep : ∀ s t, P s → P (step waitH s t))
     (sched : List Tok) (s : St) (h : P s) : P (run waitH sched s) := by
   induction sched generalizing s with
   | nil => exact h
@@ -406,15 +406,15 @@ theorem timeout_then_panic_witness :
 /-- the repaired middleware on the same five inputs and schedules: one response each, the handler
     waited for, the panic handed to recovery -/
 theorem timeout_fixed_on_witnesses :
-    (let s := run false [.h, .h, .rc, .h, .rc, .h, .h, .h, .rd] (init [.fireDl, .awaitCtx, .awaitE, .awaitT, .write])
+    (let s := run false [.h, .h, .rc, .rc, .h, .rc, .h, .h, .h, .rd] (init [.fireDl, .awaitCtx, .awaitE, .awaitT, .write])
      s.rpc = .returned ∧ s.body = [.t408] ∧ timeoutOK (obsOf s) = true) ∧
-    (let s := run false [.dl, .rc, .rc, .h, .h, .rd] (init [.write])
+    (let s := run false [.dl, .rc, .rc, .rc, .h, .h, .rd] (init [.write])
      s.rpc = .returned ∧ s.body = [.t408] ∧ timeoutOK (obsOf s) = true) ∧
     (let s := run false [.h, .h, .h, .rc, .rc, .h, .h, .h, .rd] (init [.write, .fireDl, .awaitCtx, .hold, .write])
      s.rpc = .returned ∧ s.body = [.h, .h] ∧ timeoutOK (obsOf s) = true) ∧
     (let s := run false [.h, .h, .rc, .h, .h, .rd] (init [.firePc, .awaitCtx, .hold, .panic 1])
      s.rpc = .returned ∧ s.hDone = true ∧ s.recovered = some 1 ∧ s.body = [.rec500] ∧ timeoutOK (obsOf s) = true) ∧
-    (let s := run false [.h, .h, .rc, .h, .rc, .h, .h, .rd] (init [.fireDl, .awaitCtx, .awaitE, .awaitT, .panic 0])
+    (let s := run false [.h, .h, .rc, .rc, .h, .rc, .h, .h, .rd] (init [.fireDl, .awaitCtx, .awaitE, .awaitT, .panic 0])
      s.rpc = .returned ∧ s.body = [.t408] ∧ s.recovered = some 0 ∧ timeoutOK (obsOf s) = true) := by decide
 
 /-! ### the repaired middleware: the whole oracle, every program, every schedule, no exclusion -/
@@ -485,7 +485,7 @@ theorem lemma_finishR_invF (s : St) (h : InvF s) (hd : s.hDone = true) (hnr : s.
     · exact absurd h4.2.1 hnt
     · exact Or.inr (Or.inr ⟨h4.1, Or.inr rfl, h4.2.2.1, h4.2.2.2.1, h4.2.2.2.2⟩)
 
-theorem lemma_stepR_invF (waitH pd : Bool) (s : St) (h : InvF s) : InvF (stepR waitH pd s) := by
+theorem lemma_stepR_invF (waitH : Hooks) (pd : Bool) (s : St) (h : InvF s) : InvF (stepR waitH pd s) := by
   cases hpc : s.rpc with
   | select =>
     simp only [stepR, hpc]
@@ -503,14 +503,27 @@ theorem lemma_stepR_invF (waitH pd : Bool) (s : St) (h : InvF s) : InvF (stepR w
           · simp [hpc] at h4
           · rcases h4.2.1 with h | h <;> simp [hpc] at h
         split
-        · split
-          · rename_i hst
-            refine ⟨fun hx => by simp at hx, fun _ => hrec, h3, Or.inl ⟨h4'.1, h4'.2.1, h4'.2.2.1, by simp, h4'.2.2.2.1, fun _ hf => ?_, fun hx => by simp at hx⟩⟩
-            simp [hst] at hf
-          · rename_i hst
-            have := h4'.2.2.2.2 (by simpa using hst)
-            exact ⟨fun hx => by simp at hx, fun _ => hrec, h3, Or.inr (Or.inl ⟨rfl, rfl, h4'.2.1, this.1, this.2⟩)⟩
         · exact ⟨fun hx => by simp at hx, fun _ => hrec, h3, Or.inl ⟨h4'.1, h4'.2.1, h4'.2.2.1, by simp, h4'.2.2.2.1, fun _ hf => h4'.2.2.2.2 hf, fun hx => by simp at hx⟩⟩
+        · exact ⟨fun hx => by simp at hx, fun _ => hrec, h3, Or.inl ⟨h4'.1, h4'.2.1, h4'.2.2.1, by simp, h4'.2.2.2.1, fun _ hf => h4'.2.2.2.2 hf, fun hx => by simp at hx⟩⟩
+  | logging =>
+    simp only [stepR, hpc]
+    split
+    · exact h
+    · obtain ⟨h1, h2, h3, h4⟩ := h
+      have hrec := h2 (by simp [hpc])
+      have h4' : s.timedOut = false ∧ s.tWritten = false ∧ Chunk.t408 ∉ s.body ∧
+          (s.started = true → Chunk.h ∈ s.body) ∧ (s.started = false → s.body = [] ∧ s.status = none) := by
+        rcases h4 with h4 | h4 | h4
+        · exact ⟨h4.1, h4.2.1, h4.2.2.1, h4.2.2.2.2.1, h4.2.2.2.2.2.1 (by simp [hpc])⟩
+        · simp [hpc] at h4
+        · rcases h4.2.1 with h | h <;> simp [hpc] at h
+      split
+      · rename_i hst
+        refine ⟨fun hx => by simp at hx, fun _ => hrec, h3, Or.inl ⟨h4'.1, h4'.2.1, h4'.2.2.1, by simp, h4'.2.2.2.1, fun _ hf => ?_, fun hx => by simp at hx⟩⟩
+        simp [hst] at hf
+      · rename_i hst
+        have := h4'.2.2.2.2 (by simpa using hst)
+        exact ⟨fun hx => by simp at hx, fun _ => hrec, h3, Or.inr (Or.inl ⟨rfl, rfl, h4'.2.1, this.1, this.2⟩)⟩
   | thandler =>
     simp only [stepR, hpc]
     obtain ⟨h1, h2, h3, h4⟩ := h
@@ -530,7 +543,7 @@ theorem lemma_stepR_invF (waitH pd : Bool) (s : St) (h : InvF s) : InvF (stepR w
     · exact h
   | returned => simp only [stepR, hpc]; exact h
 
-theorem lemma_step_invF (waitH : Bool) (s : St) (t : Tok) (h : InvF s) : InvF (step waitH s t) := by
+theorem lemma_step_invF (waitH : Hooks) (s : St) (t : Tok) (h : InvF s) : InvF (step waitH s t) := by
   cases t with
   | h => exact lemma_stepH_invF s h
   | rd => exact lemma_stepR_invF waitH true s h
@@ -583,7 +596,7 @@ theorem lemma_finishR_invW (s : St) (h : InvW s) : InvW (finishR s) := by
     · exact lemma_write_invW _ .rec500 (by decide) (lemma_fields_invW s _ rfl rfl h)
   · exact lemma_fields_invW s _ rfl rfl h
 
-theorem lemma_stepR_invW (waitH pd : Bool) (s : St) (h : InvW s) : InvW (stepR waitH pd s) := by
+theorem lemma_stepR_invW (waitH : Hooks) (pd : Bool) (s : St) (h : InvW s) : InvW (stepR waitH pd s) := by
   unfold stepR
   split
   · split
@@ -591,10 +604,13 @@ theorem lemma_stepR_invW (waitH pd : Bool) (s : St) (h : InvW s) : InvW (stepR w
     · split
       · exact h
       · split
-        · split
-          · exact lemma_fields_invW s _ rfl rfl h
-          · exact lemma_fields_invW s _ rfl rfl h
         · exact lemma_fields_invW s _ rfl rfl h
+        · exact lemma_fields_invW s _ rfl rfl h
+  · split
+    · exact h
+    · split
+      · exact lemma_fields_invW s _ rfl rfl h
+      · exact lemma_fields_invW s _ rfl rfl h
   · split
     · exact h
     · exact lemma_write_invW _ .t408 (by decide) (lemma_fields_invW s _ rfl rfl h)
@@ -603,7 +619,7 @@ theorem lemma_stepR_invW (waitH pd : Bool) (s : St) (h : InvW s) : InvW (stepR w
     · exact h
   · exact h
 
-theorem lemma_step_invW (waitH : Bool) (s : St) (t : Tok) (h : InvW s) : InvW (step waitH s t) := by
+theorem lemma_step_invW (waitH : Hooks) (s : St) (t : Tok) (h : InvW s) : InvW (step waitH s t) := by
   cases t with
   | h => exact lemma_stepH_invW s h
   | rd => exact lemma_stepR_invW waitH true s h
@@ -639,7 +655,7 @@ theorem lemma_invF_ok (s : St) (h : InvF s) (hw : InvW s) (hr : s.rpc = .returne
     oracle holds — at most one timeout body, never together with handler output or recovery's body,
     status 408 with it, the handler goroutine is over, its panic has reached recovery and is answered
     with recovery's 500 when nothing had been written. -/
-theorem timeout_single_response (waitH : Bool) (prog : List HAct) (sched : List Tok) :
+theorem timeout_single_response (waitH : Hooks) (prog : List HAct) (sched : List Tok) :
     (run waitH sched (init prog)).rpc = .returned → timeoutOK (obsOf (run waitH sched (init prog))) = true :=
   lemma_invF_ok _ (lemma_t_run_induct waitH InvF (lemma_step_invF waitH) sched _ (lemma_init_invF prog))
     (lemma_t_run_induct waitH InvW (lemma_step_invW waitH) sched _ (lemma_init_invW prog))
@@ -647,18 +663,25 @@ theorem timeout_single_response (waitH : Bool) (prog : List HAct) (sched : List 
 /-- non-vacuity: runs that end `returned` — after a deadline and a late panic; with the response
     started before the deadline; after a parent cancel -/
 example :
-    let s := run true [.h, .h, .rc, .h, .h, .rd, .rd] (init [.fireDl, .awaitCtx, .awaitE, .panic 3])
+    let s := run true [.h, .h, .rc, .rc, .h, .h, .rd, .rd] (init [.fireDl, .awaitCtx, .awaitE, .panic 3])
     s.rpc = .returned ∧ s.recovered = some 3 ∧ s.timedOut = true ∧ s.body = [.t408] := by decide
 
 example :
-    let s := run false [.h, .h, .h, .rc, .h, .h, .rd] (init [.write, .fireDl, .awaitCtx, .write, .panic 2])
+    let s := run false [.h, .h, .h, .rc, .rc, .h, .h, .rd] (init [.write, .fireDl, .awaitCtx, .write, .panic 2])
     s.rpc = .returned ∧ s.timedOut = false ∧ s.body = [.h, .h, .rec500] ∧ s.status = some .h := by decide
+
+/-- the window between the `select` and the claim: the timeout is being logged (the logger waits), the handler
+    starts the response in that very moment — the claim fails, the response stays the handler's -/
+example :
+    let s := run { waitL := true } [.h, .h, .rc, .h, .h, .h, .rc, .h, .rd]
+      (init [.fireDl, .awaitCtx, .awaitL, .write, .signalH])
+    s.rpc = .returned ∧ s.timedOut = false ∧ s.body = [.h] ∧ timeoutOK (obsOf s) = true := by decide
 
 /-- **Re-panic.** For every handler program and every schedule: when the middleware has returned,
     whatever panic the handler goroutine raised — before or after the deadline, with or without a
     parent cancel — has been re-raised on the request goroutine and handled by recovery
     (`recovered = panicChan`, also when there was no panic). -/
-theorem timeout_repanics (waitH : Bool) (prog : List HAct) (sched : List Tok) :
+theorem timeout_repanics (waitH : Hooks) (prog : List HAct) (sched : List Tok) :
     let s := run waitH sched (init prog)
     s.rpc = .returned → s.recovered = s.panicChan := by
   intro s hr
@@ -666,14 +689,14 @@ theorem timeout_repanics (waitH : Bool) (prog : List HAct) (sched : List Tok) :
 
 /-- **The request waits for its handler.** The context is never handed back while the handler
     goroutine runs — for every schedule: deadline, parent cancel or neither. -/
-theorem timeout_waits_for_handler (waitH : Bool) (prog : List HAct) (sched : List Tok) :
+theorem timeout_waits_for_handler (waitH : Hooks) (prog : List HAct) (sched : List Tok) :
     let s := run waitH sched (init prog)
     s.rpc = .returned → s.hDone = true := by
   intro s hr
   exact ((lemma_t_run_induct waitH InvF (lemma_step_invF waitH) sched _ (lemma_init_invF prog)).1 hr).1
 
 /-- the timeout body is written at most once, at every moment of every execution -/
-theorem timeout_body_at_most_once (waitH : Bool) (prog : List HAct) (sched : List Tok) :
+theorem timeout_body_at_most_once (waitH : Hooks) (prog : List HAct) (sched : List Tok) :
     (run waitH sched (init prog)).body.count Chunk.t408 ≤ 1 := by
   have h := (lemma_t_run_induct waitH InvF (lemma_step_invF waitH) sched _ (lemma_init_invF prog)).2.2.2
   rcases h with h | h | h
@@ -683,7 +706,7 @@ theorem timeout_body_at_most_once (waitH : Bool) (prog : List HAct) (sched : Lis
   · simp [h.2.2.2.1]
 
 /-- the response has one owner at every moment of every execution, not only at the end -/
-theorem timeout_never_interleaved (waitH : Bool) (prog : List HAct) (sched : List Tok) :
+theorem timeout_never_interleaved (waitH : Hooks) (prog : List HAct) (sched : List Tok) :
     let s := run waitH sched (init prog)
     Chunk.t408 ∈ s.body → s.body = [Chunk.t408] ∧ s.status = some Chunk.t408 := by
   intro s hm
@@ -697,7 +720,7 @@ theorem timeout_never_interleaved (waitH : Bool) (prog : List HAct) (sched : Lis
 /-- what the driver computes for a harness case (`fair`, the handler-first / request-first
     scheduler) is the run of *a* schedule — so every theorem above that quantifies over schedules
     applies to it -/
-theorem fair_is_a_schedule (waitH hFirst : Bool) (n : Nat) (s : St) :
+theorem fair_is_a_schedule (waitH : Hooks) (hFirst : Bool) (n : Nat) (s : St) :
     ∃ sched : List Tok, fair waitH hFirst n s = run waitH sched s := by
   induction n generalizing s with
   | zero => exact ⟨[], rfl⟩
@@ -723,7 +746,7 @@ theorem fair_is_a_schedule (waitH hFirst : Bool) (n : Nat) (s : St) :
         · exact ⟨[], by simp only [ha, hb]; rfl⟩
 
 /-- the same for the scheduler used under a real budget (it may let the timer fire) -/
-theorem fairT_is_a_schedule (waitH hFirst : Bool) (n : Nat) (s : St) :
+theorem fairT_is_a_schedule (waitH : Hooks) (hFirst : Bool) (n : Nat) (s : St) :
     ∃ sched : List Tok, fairT waitH hFirst n s = run waitH sched s := by
   induction n generalizing s with
   | zero => exact ⟨[], rfl⟩
@@ -916,6 +939,7 @@ theorem lemma_runSkipped_ok (drop : Nat) (prog : List HAct) (s : St) (h : InvS s
       | firePc => simp only [runSkipped]; exact ih 0 _ ⟨h1, h2, h3, h4, h5, h6, h7, h8⟩
       | guard n => simp only [runSkipped]; exact ih _ s ⟨h1, h2, h3, h4, h5, h6, h7, h8⟩
       | awaitCtx => simp only [runSkipped]; exact ih 0 s ⟨h1, h2, h3, h4, h5, h6, h7, h8⟩
+      | awaitL => simp only [runSkipped]; exact ih 0 s ⟨h1, h2, h3, h4, h5, h6, h7, h8⟩
       | awaitE => simp only [runSkipped]; exact ih 0 s ⟨h1, h2, h3, h4, h5, h6, h7, h8⟩
       | awaitT => simp only [runSkipped]; exact ih 0 s ⟨h1, h2, h3, h4, h5, h6, h7, h8⟩
       | signalH => simp only [runSkipped]; exact ih 0 s ⟨h1, h2, h3, h4, h5, h6, h7, h8⟩
